@@ -1582,6 +1582,16 @@ func (ex *Exec) invoke(recv Value, m *types.Func, args []Value) Value {
 			ex.intrUsed["("+op.Kind+")."+m.Name()] = true
 			return h(ex, op, args)
 		}
+		if strings.HasPrefix(op.Kind, "libval:") && m.Name() == "Error" {
+			msgs := map[string]string{"context.DeadlineExceeded": "context deadline exceeded", "context.Canceled": "context canceled", "io.EOF": "EOF",
+				"io.ErrUnexpectedEOF": "unexpected EOF", "net/http.ErrNoCookie": "http: named cookie not present", "net/http.ErrUseLastResponse": "net/http: use last response"}
+			if msg, ok := msgs[strings.TrimPrefix(op.Kind, "libval:")]; ok {
+				return StrLit(msg)
+			}
+		}
+		if strings.HasPrefix(op.Kind, "libval:") && (m.Name() == "Timeout" || m.Name() == "Temporary") {
+			return BoolLit(op.Kind == "libval:context.DeadlineExceeded")
+		}
 		panic(engineErr("unsupported method %s on opaque %s [%s]", m.Name(), op.Kind, ex.where()))
 	}
 	sel := ex.eng.prog.MethodSets.MethodSet(iv.T).Lookup(m.Pkg(), m.Name())
